@@ -1,5 +1,16 @@
 open Datatypes
 
+(** val nth : nat -> 'a1 list -> 'a1 -> 'a1 **)
+
+let rec nth n l default =
+  match n with
+  | O -> (match l with
+          | [] -> default
+          | x :: _ -> x)
+  | S m -> (match l with
+            | [] -> default
+            | _ :: t -> nth m t default)
+
 (** val nth_error : 'a1 list -> nat -> 'a1 option **)
 
 let rec nth_error l = function
@@ -49,6 +60,12 @@ let rec fold_left f l a0 =
   | [] -> a0
   | b :: t -> fold_left f t (f a0 b)
 
+(** val fold_right : ('a2 -> 'a1 -> 'a1) -> 'a1 -> 'a2 list -> 'a1 **)
+
+let rec fold_right f a0 = function
+| [] -> a0
+| b :: t -> f b (fold_right f a0 t)
+
 (** val existsb : ('a1 -> bool) -> 'a1 list -> bool **)
 
 let rec existsb f = function
@@ -76,6 +93,24 @@ let rec combine l l' =
     (match l' with
      | [] -> []
      | y :: tl' -> (x, y) :: (combine tl tl'))
+
+(** val firstn : nat -> 'a1 list -> 'a1 list **)
+
+let rec firstn n l =
+  match n with
+  | O -> []
+  | S n0 -> (match l with
+             | [] -> []
+             | a :: l0 -> a :: (firstn n0 l0))
+
+(** val skipn : nat -> 'a1 list -> 'a1 list **)
+
+let rec skipn n l =
+  match n with
+  | O -> l
+  | S n0 -> (match l with
+             | [] -> []
+             | _ :: l0 -> skipn n0 l0)
 
 (** val repeat : 'a1 -> nat -> 'a1 list **)
 
